@@ -100,6 +100,8 @@ func init() {
 				break
 			}
 		}
+		// the tracker stays alive while OTHER trackers process descriptors (stable.go decoy phase)
+		keepView("Open() of the tracker after the history", func() string { return valTextFull(ids(st.Open())) })
 		return VL(out...)
 	})
 }
